@@ -84,6 +84,10 @@ struct BmpStream : Family {
 			if (backend == "path") { disk::put("in.bmp", bytes); bf = BitmapFile::ReadIndexed(std::string("in.bmp")); return; }
 			ReaderBox b = openBackend(backend, bytes, "in", plan.seed); bf = BitmapFile::ReadIndexed(*b.rd);
 		}, &what);
+		// the property quantifies over what the reader accepts: a reader that (with an ordinary error) refuses a file whose
+		// informational header fields (image size, pixels per metre) hold junk does not contradict it; the plain form of the
+		// same file is what the library's own writer emits, which the round-trip clause obliges the reader to accept
+		if (o == ErrStd && (m.imageSize || m.xppm || m.yppm)) { ctx.count("probe.bmp_informational_junk_refused"); return; }
 		if (o != OkOut) ctx.fail("C08.valid", "a well-formed " + std::to_string(m.bits) + "-bit " + std::to_string(m.w) + "x" + std::to_string(m.h) + " bitmap with " + std::to_string(m.palette.size()) + " palette entries was not read (backend " + backend + "): " + what);
 		o = callLib(plan, [&] { bf.Validate(); }, &what);
 		if (o != OkOut) ctx.fail("C08.valid", "bitmap returned by the reader fails the library's own validation: " + what);
